@@ -41,7 +41,8 @@ def group_rows(rows, bykeys):
 
 def build(case):
     rows = case["rows"]
-    data = {"g0": [r["g"][0] for r in rows], "g1": [r["g"][1] for r in rows],
+    g0 = "g0" if not case.get("by_name_contains_features") else "grp_lab"
+    data = {g0: [r["g"][0] for r in rows], "g1": [r["g"][1] for r in rows],
             "lab": [r["lab"] for r in rows], "seq": [r["seq"] for r in rows], "extra": list(range(len(rows)))}
     df = pd.DataFrame(data)
     if case.get("index") == "str":
@@ -121,7 +122,7 @@ def check(case, rec):
     rows = case["rows"]
     nby = case["nby"]
     bykeys = list(range(nby))
-    by = ["g0", "g1"][:nby]
+    by = ["g0" if not case.get("by_name_contains_features") else "grp_lab", "g1"][:nby]
     by_arg = by if (nby > 1 or case.get("by_as_list")) else by[0]
     on = case["on"]  # "lab" | "seq" | ["lab","seq"]
     groups = group_rows(rows, bykeys)
@@ -311,7 +312,7 @@ def table_case(draw, tier="quick"):
     case = {"rows": rows, "nby": nby, "on": draw(st.sampled_from(["lab", "seq", ["lab", "seq"]])),
             "bins": draw(st.sampled_from([0, 0, [0, 1, 2, 3], [0, 1, 2, 4, 8], [1, 2, 3], [0, 2, 20]])),
             "index": draw(st.sampled_from(["default", "str", "rev"])), "by_as_list": draw(st.booleans()),
-            "maxseqs_noop": draw(st.booleans())}
+            "maxseqs_noop": draw(st.booleans()), "by_name_contains_features": draw(st.booleans())}
     if draw(st.booleans()):
         case["weights"] = draw(st.lists(st.sampled_from([0.5, 1, 2, 3, 1.25, 10]), min_size=6, max_size=12))
         case["weights_as"] = draw(st.sampled_from(["list", "float64_array"]))
